@@ -2,7 +2,8 @@
 
 R-C13.1  structural copies carry every field: a method that rebuilds its own class
          (`return C(...)`) passes every constructor parameter that has a default (omitting
-         one silently resets that field), or goes through dataclasses.replace.
+         one silently resets that field), or goes through dataclasses.replace; and an own field
+         that is handed on (`self.f`) is passed in its own slot, not in another field's.
 R-C13.2  de Bruijn arithmetic of the Instantiator, interpreted on all (index, #instantiated)
          pairs up to 4x3: a bound variable below the instantiation length is replaced by
          that argument, otherwise its index is lowered by exactly that length and its other
@@ -12,6 +13,9 @@ R-C13.3  `compile_variable_idx` = number of non-monomorphised parameters before 
 R-C13.4  instantiate_partial, interpreted on all argument lists of length <= 3 (c13_partial.py, below);
          TupleType.transform keeps `preserve`.
 R-C13.5  partially_monomorphize_args agrees with its specification on the basic parameter lists (c13_mono.py).
+R-C13.6  `instantiation_needs_unpacking` (the guard of `visit_TypeApply` against instantiations that turn the result into a row),
+         interpreted on {result is the type variable or not} x {instantiated with tuple / None / numeric / struct type}: True
+         exactly for a type-variable result instantiated with a tuple or None type.
 Not decided: run-time results of monomorphised code, HUGR validity.
 """
 
@@ -35,8 +39,10 @@ EXPLANATION = (
 # (class, method, parameter) that may be left at its default in a structural copy, with the reason
 EXEMPT = {
     ("FunctionType", "transform", "comptime_args"):
-        "recomputed from `params`: equals the old value whenever the params are untouched, which is the case for every transformer "
-        "(Substituter/Instantiator never change params; Instantiator refuses parametrised function types). Observation, no failing input found.",
+        "recomputed from `params` (the bound comptime parameters): equals the old value for a type whose comptime arguments were never "
+        "given explicitly.  After instantiate_partial (explicit comptime args) a later transform DOES lose them -- at unit level "
+        "f[n:=3].transform(identity).comptime_args == [] -- but comptime_args are only read by type_check_args on the freshly "
+        "unquantified type, never after such a transform. Observation, no failing user-level input found (also by two seeding agents).",
     ("ConstParam", "with_idx", "from_comptime_arg"):
         "readers are the default comptime_args computation and the type printer; instantiate_partial passes comptime_args explicitly. "
         "Observation, no failing input found.",
@@ -89,6 +95,16 @@ def run(ctx: Ctx) -> None:
                 passed = {params[i][0] for i in range(min(len(call.args), len(params)))} | {k.arg for k in call.keywords if k.arg}
                 if any(k.arg is None for k in call.keywords):
                     passed |= {p for p, _ in params}
+                # an own field that is handed on unchanged goes into its OWN slot: `C(idx, self.name, self.a, self.b)`, never
+                # `C(idx, self.name, self.b, self.a)` (bool / same-typed fields swap without any type error)
+                names = [q for q, _ in params]
+                slots = [(names[i], a) for i, a in enumerate(call.args[: len(names)]) if not isinstance(a, ast.Starred)] + [(k.arg, k.value) for k in call.keywords if k.arg]
+                crossed = [(slot, a.attr) for slot, a in slots
+                           if isinstance(a, ast.Attribute) and isinstance(a.value, ast.Name) and a.value.id == "self" and a.attr in names and a.attr != slot]
+                ctx.check(not crossed, "R-C13.1", f"{f.qualname}#own-fields-in-their-own-slots", f"{f.module.rel}:{call.lineno}",
+                          {"copy": ast.unparse(call)[:100], "constructor_parameters": names, "crossed": [f"{slot} <- self.{src}" for slot, src in crossed]},
+                          f"`{f.name}` rebuilds a {c.name} with one of its own fields passed in the place of another: the copy differs from the "
+                          f"original in a field the method is not about (e.g. a copy-only type parameter becomes drop-only)")
                 for p, has_default in params:
                     if not has_default:
                         continue
@@ -220,3 +236,25 @@ def run(ctx: Ctx) -> None:
     from . import c13_mono
     c13_mono.run(ctx)
 
+
+    # ------------------------------------------------------------ R-C13.6 the row-return guard of TypeApply looks at the instantiated TYPE
+    f = idx.find_func("instantiation_needs_unpacking", "guppylang_internals.compiler.expr_compiler")
+    key = f"{f.qualname}#tuple-and-none-instantiations-are-recognised"
+    ps = [a.arg for a in f.node.args.args]
+    bad = []
+    try:
+        for out_is_var, arg_ty in itertools.product((True, False), ("TupleType", "NoneType", "NumericType", "StructType")):
+            out_ty = Tok("T", __class__="BoundTypeVar", idx=1, __ident__=1) if out_is_var else Tok("int_ty", __class__="NumericType", __ident__=1)
+            inst = [Tok("arg0", __class__="TypeArg", ty=Tok("other", __class__="NumericType"), __ident__=1),
+                    Tok("arg1", __class__="TypeArg", ty=Tok("instantiated_ty", __class__=arg_ty, __ident__=1), __ident__=1)]
+            r = PyEval(idx, f.module.name).run(f.node.body, {ps[0]: Tok("func_ty", output=out_ty, __ident__=1), ps[1]: inst})
+            got = r[1] if r[0] == "return" else r
+            want = out_is_var and arg_ty in ("TupleType", "NoneType")
+            if got is not want:
+                bad.append({"output_is_the_type_variable": out_is_var, "instantiated_with": arg_ty, "needs_unpacking": got, "should_be": want})
+        ctx.check(not bad, "R-C13.6", key, f.where, {"cases": 8, "counterexamples": bad},
+                  "a generic function whose result type is a type variable is type-applied at a tuple (or None) type without the guard "
+                  "noticing: the loaded function value returns ONE tuple port where its users expect the row of elements (ill-typed HUGR "
+                  "instead of the intended 'unsupported' error)")
+    except (Unsupported, Raised) as e:
+        ctx.undecided("R-C13.6", key, f.where, str(e))
